@@ -398,6 +398,18 @@ void DecodeMotoDFS(Word Index) {
  * Global Functions
  *****************************************************************************/
 
+/*!------------------------------------------------------------------------
+ * \fn     SetMotoPseudoTurn(Boolean Turn)
+ * \brief  select the byte order of DecodeMotoBYT/DecodeMotoADR for targets that
+ *         register these handlers in their own instruction table instead of
+ *         calling DecodeMotoPseudo()
+ * \param  Turn True = high byte first
+ * ------------------------------------------------------------------------ */
+
+void SetMotoPseudoTurn(Boolean Turn) {
+    M16Turn = Turn;
+}
+
 Boolean DecodeMotoPseudo(Boolean Turn) {
     static PInstTable InstTable = NULL;
 
